@@ -1,4 +1,6 @@
 import WhVerif.Lemmas.C03
+import WhVerif.Lemmas.C03BFS
+import WhVerif.Lemmas.C03Total
 /-!
 # C03 — phase sets are exactly the read-connected components, named by leftmost variant
 
@@ -82,5 +84,33 @@ theorem no_masterblock_without_genetic_haplotyping (accessible : List Nat) (dist
     (h : famSize ≤ 1 ∨ genetic = false) :
     (overallParams accessible distrust famSize genetic homozygous superreads).1 = none :=
   overallParams_no_master accessible distrust famSize genetic homozygous superreads h
+
+/-- the executable oracle used by the harness (breadth-first closure over "some read covers both", no union-find)
+decides the specification's `Connected` -/
+theorem connectedB_iff_connected (phased : List Nat) (reads : List Read) (master : Option (List Nat))
+    (het : Option HetMap) (a b : Nat) :
+    connectedB phased reads master het a b = true ↔ Connected phased reads master het a b :=
+  WhVerif.C03.BFS.connectedB_iff phased reads master het a b
+
+/-- model = executable brute-force spec -/
+theorem components_iff_connectedB (phased : List Nat) (reads : List Read) (master : Option (List Nat))
+    (het : Option HetMap) (comps : List (Nat × Nat))
+    (h : findComponents phased reads master het = .ok comps)
+    (p q : Nat) (hp : p ∈ phased) (hq : q ∈ phased) :
+    compOf comps p = compOf comps q ↔ connectedB phased reads master het p q = true := by
+  rw [connectedB_iff_connected]
+  exact components_iff_connected phased reads master het comps h p q hp hq
+
+example : connectedB [10, 20, 30, 40, 50] [⟨0, [10, 30]⟩, ⟨0, [20, 40]⟩, ⟨0, [30, 50]⟩] none none 10 50 = true
+    ∧ connectedB [10, 20, 30, 40, 50] [⟨0, [10, 30]⟩, ⟨0, [20, 40]⟩, ⟨0, [30, 50]⟩] none none 10 40 = false := by decide
+
+/-- the guard of the theorems above holds in the situation of the pipeline: `find_components` does not raise when
+the phased positions are sorted, every read carries a position at most once, the het map (if any) knows every read's
+sample and the master block (if any) consists of distinct phased positions -/
+theorem find_components_total (phased : List Nat) (reads : List Read) (master : Option (List Nat))
+    (het : Option HetMap) (hsorted : isSortedB phased = true) (hnd : ∀ r ∈ reads, r.positions.Nodup)
+    (hk : WhVerif.C03.Total.HetKnows het reads) (hm : WhVerif.C03.Total.MasterOk phased master) :
+    ∃ comps, findComponents phased reads master het = .ok comps :=
+  WhVerif.C03.Total.findComponents_ok phased reads master het hsorted hnd hk hm
 
 end WhVerif.Props.C03
